@@ -63,10 +63,11 @@ class Ctx:
     # ------------------------------------------------------------ exploration
 
     def explore(self, entry, mode='full', heap=None, facts=None, args=None, opaque='pure', precise=False, tag=None,
-                max_nodes=600000):
+                max_nodes=600000, dyn_force=None):
         """mode 'full': inline everything effectful; 'layer': keep dyn calls of the
         write-side / read-side traits as abstract operations."""
-        ck = (entry, mode, tag, opaque if isinstance(opaque, str) else tuple(sorted(opaque)), precise)
+        ck = (entry, mode, tag, opaque if isinstance(opaque, str) else tuple(sorted(opaque)), precise,
+              tuple(sorted((dyn_force or {}).items())))
         if ck in self._graphs:
             return self._graphs[ck]
         I = Interp(self.facts, Models(), max_nodes=max_nodes)
@@ -78,6 +79,7 @@ class Ctx:
             I.opaque = set(opaque)
         I.opaque.discard(entry)
         I.arith_precise = precise
+        I.dyn_force = dict(dyn_force or {})
         if mode == 'layer':
             I.summarise_traits = set(self.layer_traits())
         t0 = time.time()
